@@ -26,7 +26,7 @@ class Engine(BaseEngine):
                    "LMDB's reader table and NO_TLS behaviour", "schedules stay below one file-growth step (the remap hazard is C15's known finding)"]
     weights = {"new": 5, "addr": 3}
 
-    def make_growth_case(self, rng):
+    def make_growth_case(self, rng, probe=False):
         """two writers that both have to grow the event map (one of them ephemeral: not indexed), every
         interleaving of their growth steps; the final dump re-reads every indexed event"""
         sub = random.Random(rng.getrandbits(64))
@@ -45,7 +45,7 @@ class Engine(BaseEngine):
         progs = [["store " + C.t_event(big[0])], ["store " + C.t_event(big[1]), "store " + C.t_event(big[2])], [q, q, q, q]]
         obs = "obs %s %s" % (C.tl(C.tb(i) for i in g.ids), C.tl("%s %s %s" % (C.tn(k), C.tb(a), C.tb(d)) for k, a, d in g.addrs))
         names = C.tl(C.tb(n) for n in g.names)
-        line = "conc %s %s %s ; S %s%s ; F ; %s" % (names, C.tn(sub.getrandbits(40)), C.tn(sub.choice([300, 600, 800])), "".join(" ; " + o for o in setup),
+        line = "conc %s %s %s ; S %s%s ; F ; %s" % (names, C.tn(sub.getrandbits(40)), C.tn(sub.choice([300, 600, 800]) + (10000 if probe else 0)), "".join(" ; " + o for o in setup),
                                                    "".join(" ; T" + "".join(" ; " + o for o in p) for p in progs), obs)
         return ("growth-race", line), {"setup": setup, "progs": progs, "obs": obs, "names": names, "shared": big[1]}
 
@@ -107,7 +107,7 @@ class Engine(BaseEngine):
         nfree = 20 if tier == "quick" else 400
         failures, dist, samples, seen = [], {}, [], set()
         try:
-            cases = ([self.make_case(rng) for _ in range(n)] + [self.make_growth_case(rng) for _ in range(n // 4)]
+            cases = ([self.make_case(rng) for _ in range(n)] + [self.make_growth_case(rng, probe=(i % 3 == 0)) for i in range(n // 4)]
                      + [self.make_case(rng, free=True) for _ in range(nfree)])
             lines = [c[0][1] for c in cases]
             outs = C.run_lines(C.harness_exe("debug"), lines, env=env, shards=8)
@@ -147,7 +147,7 @@ class Engine(BaseEngine):
         return []
 
     def linearize(self, meta, out):
-        m = re.match(r"conc sched=(\S*) resp=", out)
+        m = re.match(r"conc sched=(\S*) refcheck=\S* resp=", out)
         if not m:
             return "bad-output"
         trace = [x.split(":", 1) for x in m.group(1).split(",") if x]
@@ -196,6 +196,9 @@ class Engine(BaseEngine):
             resp[(int(t), int(n))] = v
         if any(v == "panic" for v in resp.values()):
             return Verdict(oracle_ok=False, cls="panic-under-concurrency", detail="an operation panicked", outcome="panic")
+        rc = re.search(r" refcheck=(\d+),(\d+) ", out)
+        if rc and int(rc.group(2)) > 0:
+            return Verdict(oracle_ok=False, cls="stored-bytes-changed", detail="%s of %s events stored during the run no longer read back (by the offset their store returned) as the bytes submitted" % (rc.group(2), rc.group(1)), outcome="changed")
         if any("TORN" in v for v in resp.values()):
             return Verdict(oracle_ok=False, cls="torn-read", detail="a query returned an event that is not whole", outcome="torn")
         # N submissions of the same (non-ephemeral) event and no removal of it: exactly one succeeds
